@@ -166,7 +166,8 @@ class Workspace:
         for g in groups:
             is_const = g == "constf"
             src_cases = emit_const.const_cases(self.tier, self.seed) if is_const else catalog.family(g, self.tier, self.seed)
-            cases = [c for c in src_cases if c["id"] not in drop]
+            # "compile-only" cases are known not to compile (known finding D4); they are judged by the compile-outcome monitor only
+            cases = [c for c in src_cases if c["id"] not in drop and "compile-only" not in c.get("tags", [])]
             self.cases[g] = cases
             n_core, n_seed = GROUP_SHARDS[g]
             if self.tier == "thorough":
